@@ -210,28 +210,38 @@ Definition commit (ni : inst) (nx : nat) (s : state) : state :=
   mkSt (insts s ++ [ni]) (known s ++ [ni]) nx w sv (once s).
 
 (* ------------------------------------------------------------------ Instance.Stop *)
-Definition is_serving (i j : nat) (sv : list (nat * nat * nat)) : bool :=
-  existsb (fun x => (fst (fst x) =? i) && (snd (fst x) =? j)) sv.
-Definition drop_serving (i j : nat) (sv : list (nat * nat * nat)) : list (nat * nat * nat) :=
-  filter (fun x => negb ((fst (fst x) =? i) && (snd (fst x) =? j))) sv.
+(* the Serve goroutine of server j of instance i, if it is running: the root of the wait group
+   its closure captured, and the list without it *)
+Fixpoint take_serving (i j : nat) (sv : list (nat * nat * nat)) : option (nat * list (nat * nat * nat)) :=
+  match sv with
+  | [] => None
+  | x :: rest =>
+      if (fst (fst x) =? i) && (snd (fst x) =? j) then Some (snd x, rest)
+      else match take_serving i j rest with
+           | Some (r, l) => Some (r, x :: l)
+           | None => None
+           end
+  end.
 
 (* gs.Stop() for every graceful server: its Serve goroutine returns, whose deferred wg.Done runs *)
-Fixpoint stop_servers (i root : nat) (srv : list (nat * srvspec)) (w : nat -> nat) (sv : list (nat * nat * nat))
+Fixpoint stop_servers (i : nat) (srv : list (nat * srvspec)) (w : nat -> nat) (sv : list (nat * nat * nat))
   : (nat -> nat) * list (nat * nat * nat) * list event :=
   match srv with
   | [] => (w, sv, [])
   | (j, sp) :: r =>
       if sv_graceful sp then
-        if is_serving i j sv then
-          let '(w', sv', ev) := stop_servers i root r (wg_done root w) (drop_serving i j sv) in
-          (w', sv', EStop i j :: ERet i j :: ev)
-        else
-          let '(w', sv', ev) := stop_servers i root r w sv in (w', sv', EStop i j :: ev)
-      else stop_servers i root r w sv
+        match take_serving i j sv with
+        | Some (root, sv1) =>
+            let '(w', sv', ev) := stop_servers i r (wg_done root w) sv1 in
+            (w', sv', EStop i j :: ERet i j :: ev)
+        | None =>
+            let '(w', sv', ev) := stop_servers i r w sv in (w', sv', EStop i j :: ev)
+        end
+      else stop_servers i r w sv
   end.
 
 Definition stop_inst (o : inst) (s : state) : state * list event :=
-  let '(w, sv, ev) := stop_servers (i_id o) (i_root o) (i_srv o) (wg s) (serving s) in
+  let '(w, sv, ev) := stop_servers (i_id o) (i_srv o) (wg s) (serving s) in
   (mkSt (remove_id (i_id o) (insts s)) (known s) (next s) w sv (once s), ev).
 
 (* casket.Stop: while instances is not empty { inst := instances[0]; inst.wg.Add(1);
